@@ -973,22 +973,25 @@ def gen_case(rng, platforms):
 # ------------------------------------------------------------------------------
 #
 def master_intact(session, raw):
-    '''the harness must not have altered the loaded master configs'''
+    '''The loaded master configs are what every later pilot of the process is
+    sized from: neither the harness nor resolving / preparing one pilot may
+    alter them.  Returns None if intact, else a description of the change.'''
     for resource, entry in raw.items():
         site, name = resource.split('.', 1)
         try:
             m = session._rcfgs[site][name]
         except Exception:
             continue
-        if (m.get('cores_per_node') or 0) != (entry.get('cores_per_node') or 0):
-            return False
-        if (m.get('gpus_per_node') or 0) != (entry.get('gpus_per_node') or 0):
-            return False
+        for key in ('cores_per_node', 'gpus_per_node'):
+            if (m.get(key) or 0) != (entry.get(key) or 0):
+                return '%s: %s is %r, the shipped file says %r' \
+                       % (resource, key, m.get(key), entry.get(key))
         a = json.loads(json.dumps(dict(m.get('system_architecture') or {})))
         b = entry.get('system_architecture') or {}
         if a != b:
-            return False
-    return True
+            return '%s: system_architecture is %r, the shipped file says %r' \
+                   % (resource, a, b)
+    return None
 
 
 # ------------------------------------------------------------------------------
@@ -1061,14 +1064,28 @@ def run(ctx):
 
     # --- part 2b: seeded cases ------------------------------------------------
     rng = ctx.rng('sizing')
+    altered = master_intact(session, raw)
+    if altered:
+        res.inconc('harness altered the loaded master resource configs '
+                   'before the seeded cases: %s' % altered)
+        return res
     for i in range(ctx.n(16000, 900000)):
         case = gen_case(rng, platforms)
         _sizing_case(session, lc, case, res)
         if res.counters.get('violations_raw', 0) > 400:
             break
-
-    if not master_intact(session, raw):
-        res.inconc('harness altered the loaded master resource configs')
+        if i % 50 == 49 or case.get('env_smt'):
+            # the harness only calls get_resource_config / _prepare_pilot
+            # here: a change of the shared configs is the repository's doing
+            res.count('shared_config_checks')
+            altered = master_intact(session, raw)
+            if altered:
+                res.violation('resolution-alters-shared-config',
+                              'after preparing a pilot (%s, RADICAL_SMT=%s) '
+                              'the configs every later pilot is sized from '
+                              'have changed: %s' % (case.get('resource'),
+                              case.get('env_smt'), altered), {'case': case})
+                break
 
     return res
 
